@@ -115,10 +115,13 @@ def run(run: Run) -> int:
     run.prove(generated=["LazyConfig"])
     lab = Lab()
     try:
+        if not lab.model_ok:
+            run.notes.append("translator could not read the lazy-loading source (%s): histories are judged by "
+                             "the oracle only" % lab.unreadable)
         execute(run, lab, CORPUS, "iso-corpus", "corpus")
         ntab = 1 if run.tier == "quick" else 2
         total = 0
-        for gi in range(len(lab.cfg["groups"])):
+        for gi in range(len(lab.cfg["groups"]) if lab.model_ok else 0):
             n, hs = lab.closure_histories(gi, ntab)
             total += n
             hs = [h for h in hs if any("T1" in e[1:3] or "T2" in e[1:3] for e in h)]
